@@ -31,6 +31,17 @@ func c06Build(c *engine.C, idx int) c06File {
 	}
 	n := []int{2, 0, 1, 3, 4}[c.Choose(5, pfx+"imports")]
 	sep := engine.PickTag(c, pfx+"between-imports", "nothing", "blank-line", "comment-line")
+	if c.Bool(pfx + "enum-only-file-with-an-import") {
+		// a file that declares neither a class nor an interface; the tool leaves such files alone
+		c.Tag("enum-only-file")
+		f.optional[add(fmt.Sprintf("import lib.left.ForEnum%d;", idx))] = true
+		add("")
+		add("public enum " + name + " {")
+		add("    RED, GREEN")
+		add("}")
+		add("")
+		return f
+	}
 	if c.Bool(pfx + "marker-interface-with-left-over-imports") {
 		// a type with an empty body: no reference of any kind is recorded for this file; all its imports are unused
 		c.Tag("marker-interface")
@@ -225,6 +236,10 @@ func c06Gen(c *engine.C) engine.Case {
 	if n > 1 {
 		c.Tag("several-files")
 	}
+	throughCLI := c.Bool("through-coca-refactor")
+	if throughCLI {
+		c.Tag("cli")
+	}
 	return func() engine.Result {
 		var specs []FileSpec
 		anyDrop := false
@@ -232,7 +247,7 @@ func c06Gen(c *engine.C) engine.Case {
 			specs = append(specs, FileSpec{Path: filepath.Join("src", f.name), Content: f.content()})
 			anyDrop = anyDrop || len(f.drop) > 0
 		}
-		res := engine.Result{InputKey: filesKey(specs), Input: filesInput(specs), Nontrivial: anyDrop}
+		res := engine.Result{InputKey: filesKey(specs) + fmt.Sprint(throughCLI), Input: map[string]interface{}{"files": filesInput(specs), "through_coca_refactor": throughCLI}, Nontrivial: anyDrop}
 		if why := validateJava(specs); why != "" {
 			res.Skipped = why
 			return res
@@ -240,12 +255,26 @@ func c06Gen(c *engine.C) engine.Case {
 		root, cleanup := materialise(specs)
 		defer cleanup()
 		dir := filepath.Join(root, "src")
+		cliFailed := ""
 		run := func() {
+			if throughCLI {
+				// `coca refactor -m <move config> -p <dir>` with an empty move configuration: no class moves,
+				// then the unused-import removal
+				os.WriteFile(filepath.Join(root, "move.conf"), []byte(""), 0o644)
+				if r := runCLI(root, "refactor", "-m", "move.conf", "-p", "src"); r.Exit != 0 {
+					cliFailed = fmt.Sprintf("coca refactor -m exited %d: %s", r.Exit, trimTo(r.Stderr+r.Stdout, 600))
+				}
+				return
+			}
 			app := unused.NewRemoveUnusedImportApp(dir)
 			results := app.Analysis()
 			app.Refactoring(results)
 		}
 		run()
+		if cliFailed != "" {
+			res.Violations = append(res.Violations, engine.V("cli", "exit-status", "%s", cliFailed))
+			return res
+		}
 		var outs []string
 		after := map[string]string{}
 		for _, f := range fs {
